@@ -12,12 +12,13 @@ The corpus is a list of GROUPS; a group is one textual MIR file (one or more mod
 
 Annotations (MIR comments) tell the harness how to drive a function:
   # C01: <func> <arg>=buf<k>        pointer argument: address of byte 16 of harness buffer k (arbitrary contents)
-  # C01: <func> <arg>=buf<k>+sym    ... plus a symbolic offset 0..16 (aliasing with other pointers into buffer k)
+  # C01: <func> <arg>=buf<k>+sym    ... plus a symbolic offset in {0,4,8,12,16} (aliasing with other pointers into buffer k)
   # C01: <func> <arg>=<lo>..<hi>    integer argument restricted to [lo,hi] (trip counts, switch index, alloca size)
   # C01: <func> nores=1             results are not compared (e.g. the function returns a stack address)
   # C01: <func> skip=<reason>       function is not driven (reason goes to the evidence)
   # C01: <func> heavy=1             needs the SMT back end (multiplier/divider or fp arithmetic on symbolic values)
-  # C01: <func> fp=1                fp arithmetic on symbolic values: z3 with the fp theory
+  # C01: <func> fp=1                fp arithmetic on symbolic values (same IEEE operator on both sides): CaDiCaL, long timeout
+  # C01: <func> tier=thorough       not part of the quick tier
 Everything else is derived from the MIR text (prototype of the function, prototypes of the calls to imports)."""
 import json
 import os
@@ -275,17 +276,20 @@ def fam_pressure(rng, tier):
         body.append("dmov d:%d(p), w%d" % (8 * perm[i], i))
     body += ["dadd r, w0, w%d" % (m - 1), "ret r"]
     g.func("fp16", "d, p:p", body, p="buf0", fp="1")
-    # values live across an external call: callee-saved registers + spills
+    # values live across an external call: callee-saved registers + spills.  Data movement only (the values come from
+    # memory and go back permuted after the call) - an add/xor chain over 10 terms sharing one variable cost MiniSat 420 s
     g.raw("xp_live: proto i64, i64:x", "import xlive")
     k = 10
     body = ["local " + ", ".join("i64:v%d" % i for i in range(k)) + ", i64:r, i64:c"]
     for i in range(k):
-        body.append("add v%d, a, %d" % (i, rng.choice([1, 3, 7, 100, -5]) + i))
-    body += ["call xp_live, xlive, c, a", "mov r, c"]
+        body.append("mov v%d, i64:%d(p)" % (i, 8 * i))
+    body += ["call xp_live, xlive, c, a"]
+    perm = list(range(k))
+    rng.shuffle(perm)
     for i in range(k):
-        body.append("%s r, r, v%d" % (["add", "xor"][i % 2], i))
-    body.append("ret r")
-    g.func("live_across_call", "i64, i64:a", body)
+        body.append("mov i64:%d(p), v%d" % (8 * perm[i], i))
+    body += ["add r, c, v0", "xor r, r, a", "ret r"]
+    g.func("live_across_call", "i64, p:p, i64:a", body, p="buf0")
     return g
 
 
@@ -304,10 +308,12 @@ def fam_ovf(rng, tier):
         combos += [("addos", "ubno"), ("subos", "bno"), ("addo", "bno"), ("subo", "ubo")]
     for op, br in combos:
         L1 = g.lab()
-        g.func("%s_%s" % (op, br), "i64, i64, i64:a, i64:b", ["local i64:r", "%s r, a, b" % op, "%s %s" % (br, L1), "ret r, 0", "%s:" % L1, "add r, r, 1", "ret r, 1"])
+        g.func("%s_%s" % (op, br), "%s, i64, i64:a, i64:b" % ("i32" if op.endswith("s") else "i64"),
+               ["local i64:r", "%s r, a, b" % op, "%s %s" % (br, L1), "ret r, 0", "%s:" % L1, "add r, r, 1", "ret r, 1"])
     for op, br in [("mulo", "bo"), ("umulo", "ubo"), ("mulos", "bno"), ("umulos", "ubno")]:
         L1 = g.lab()
-        g.func("%s_%s" % (op, br), "i64, i64, i64:a, i64:b", ["local i64:r", "%s r, a, b" % op, "%s %s" % (br, L1), "ret r, 0", "%s:" % L1, "ret r, 1"], heavy="1")
+        g.func("%s_%s" % (op, br), "%s, i64, i64:a, i64:b" % ("i32" if op.endswith("s") else "i64"),
+               ["local i64:r", "%s r, a, b" % op, "%s %s" % (br, L1), "ret r, 0", "%s:" % L1, "ret r, 1"], heavy="1", tier="thorough")
     # overflow insn with an immediate, flag consumed after an unrelated mov
     L1 = g.lab()
     g.func("addo_imm", "i64, i64:a", ["local i64:r, i64:t", "addo r, a, %d" % rng.choice([1, 0x7fffffff, -1]), "bo %s" % L1, "ret r", "%s:" % L1, "ret 0"])
@@ -317,18 +323,18 @@ def fam_ovf(rng, tier):
 def fam_mix(rng, tier):
     g = Fam("mix", rng)
     c = rng.choice([3, 10, 1000])
-    g.func("w32_64", "i64, i64:a, i64:b", ["local i64:t, i64:u, i64:r", "adds t, a, b", "ext32 u, t", "lsh r, u, 4", "uext32 t, t", "add r, r, t", "rshs u, a, 5", "xor r, r, u", "ret r"])
+    g.func("w32_64", "i64, i64:a, i64:b", ["local i64:t, i64:u, i64:r", "adds t, a, b", "ext32 u, t", "lsh r, u, 4", "uext32 t, t", "add r, r, t", "rshs u, a, 5", "ext32 u, u", "xor r, r, u", "ret r"])
     g.func("ext_chain", "i64, i64:a", ["local i64:x, i64:y, i64:z", "ext8 x, a", "uext16 y, a", "ext16 z, a", "add x, x, y", "sub x, x, z", "uext8 y, x", "add x, x, y", "ret x"])
     g.func("i2d_cmp", "i64, i64:a, d:x", ["local d:t, i64:r, i64:u", "ext32 u, a", "i2d t, u", "dlt r, t, x", "ret r"])
-    g.func("fd_mix", "d, f:x, d:y", ["local d:t, d:r", "f2d t, x", "dadd r, t, y", "ret r"], fp="1")
-    g.func("f_arith", "f, f:x, f:y", ["local f:r", "fmul r, x, y", "fsub r, r, x", "ret r"], fp="1")
+    g.func("fd_mix", "d, f:x, d:y", ["local d:t, d:r", "f2d t, x", "dadd r, t, y", "ret r"], fp="1", tier="thorough")
+    g.func("f_arith", "f, f:x, f:y", ["local f:r", "fmul r, x, y", "fsub r, r, x", "ret r"], fp="1", tier="thorough")
     g.func("d_const", "d, d:x", ["local d:r", "dmul r, x, %s" % rng.choice(["2.5", "0.1", "-3.0"]), "ret r"], fp="1")
     L1 = g.lab()
     g.func("fcmp_br", "i64, f:x, f:y, i64:a", ["local i64:r", "mov r, a", "fbge %s, x, y" % L1, "add r, r, %d" % c, "%s:" % L1, "ret r"])
-    g.func("shifts", "i64, i64:a, i64:n", ["local i64:r, i64:t", "lsh r, a, n", "ursh t, a, n", "xor r, r, t", "rsh t, a, 7", "add r, r, t", "urshs t, a, 3", "add r, r, t", "ret r"], n="0..63")
-    g.func("divmod", "i64, i64:a, i64:b", ["local i64:q, i64:r", "udiv q, a, b", "umod r, a, b", "add q, q, r", "ret q"], b="1..1000", heavy="1")
-    g.func("mul3", "i64, i64:a, i64:b", ["local i64:r", "mul r, a, %d" % rng.choice([3, 5, 9, 24, 1000]), "muls b, b, 16", "add r, r, b", "ret r"], heavy="1")
-    g.func("ld_arith", "ld, ld:x, ld:y", ["local ld:r", "ldadd r, x, y", "ldneg r, r", "ret r"], fp="1")
+    g.func("shifts", "i64, i64:a, i64:n", ["local i64:r, i64:t", "lsh r, a, n", "ursh t, a, n", "xor r, r, t", "rsh t, a, 7", "add r, r, t", "urshs t, a, 3", "uext32 t, t", "add r, r, t", "ret r"], n="0..63")
+    g.func("divmod", "i64, i64:a, i64:b", ["local i64:q, i64:r", "udiv q, a, b", "umod r, a, b", "add q, q, r", "ret q"], b="1..1000", heavy="1", tier="thorough")
+    g.func("mul3", "i64, i64:a, i64:b", ["local i64:r", "mul r, a, %d" % rng.choice([3, 5, 9, 24, 1000]), "muls b, b, 16", "ext32 b, b", "add r, r, b", "ret r"], heavy="1")
+    g.func("ld_arith", "ld, ld:x, ld:y", ["local ld:r", "ldadd r, x, y", "ldneg r, r", "ret r"], fp="1", tier="thorough")
     return g
 
 
@@ -639,7 +645,13 @@ def make_cases(meta, hdr, lifted_names):
                     if k not in bufs:
                         bufs.add(k)
                         c.append("  c01_buf_fill (%d);" % k)
-                    c.append("  uint64_t %s = (uint64_t) (uintptr_t) &c01_buf[%d][16]%s;" % (v, k, " + nd_below (17)" if m.group(2) else ""))
+                    if m.group(2):  # symbolic offset 0,4,8,12,16 - case split so that every path has a concrete address
+                        c.append("  uint64_t o%d = nd (); H_ASSUME (o%d <= 4);" % (i, i))
+                        c.append("  { int hit = 0; for (uint64_t k = 0; k < 4; k++) if (o%d == k) { o%d = k; hit = 1; break; }" % (i, i))
+                        c.append("    if (!hit) o%d = 4; }" % i)
+                        c.append("  uint64_t %s = C01_BUF_ADDR (%d, 16 + 4 * o%d);" % (v, k, i))
+                    else:
+                        c.append("  uint64_t %s = C01_BUF_ADDR (%d, 16);" % (v, k))
                 else:
                     c.append("  uint64_t %s = nd ();" % v)
                     m = re.match(r"(-?\d+)\.\.(-?\d+)$", spec)
@@ -709,7 +721,7 @@ def make_cases(meta, hdr, lifted_names):
         c.append('  H_WITNESS ("end");\n}')
         out += c
         entries.append({"func": f["name"], "entry": "harness_" + csym(f["name"]), "skip": None, "nargs": n, "heavy": ann.get("heavy") == "1", "fp": ann.get("fp") == "1",
-                        "ext": bool(f["ext_called"]), "calls": bool(f["calls"]), "nores": ann.get("nores") == "1",
+                        "ext": bool(f["ext_called"]), "calls": bool(f["calls"]), "nores": ann.get("nores") == "1", "thorough_only": ann.get("tier") == "thorough",
                         "sample": "%s(%s) -> %s" % (f["name"], ", ".join("%s:%s%s" % (a["type"], a["name"], "=" + ann[a["name"]] if a["name"] in ann else "") for a in f["args"]),
                                                    ", ".join(f["res"]) or "void")})
     return "\n".join(out) + "\n", entries
